@@ -6,7 +6,7 @@ KeyCache, and returns a trace the oracles can judge.
 plan = {
   "seed": int, "clock_ft": int, "clock_tick_ns": int (time passing per reading of the clock; 0 = frozen during a call),
   "root_keys": [[idx, hash, secret], ...],          # known to the DC; index = position in this list
-  "dc": {"omit_l2_at_31": bool, "skew_ticks": int, "domain": str, "forest": str, "pad_mode": str, "header_sign": bool, "byz": {}},
+  "dc": {"omit_l2_at_31": bool, "skew_ticks": int, "domain": str, "forest": str, "pad_mode": str, "header_sign": bool, "after_response": "rst"|"eof", "byz": {}},
   "ctx": {"kind": "stub", "legs": 2, "sig": 16} | {"kind": "ntlm"} | {"kind": "negotiate"},
   "caller_sids": [sid, ...],
   "delivery": {...} | None, "latency_us": [lo, hi], "use_dns": bool, "conn_flap": n (the first n connects of every operation to the key service port are refused), "cred_fault": "stub-raise"|"ntlm-unknown-user"|"kerberos-not-installed" (credential acquisition fails),
@@ -198,6 +198,8 @@ def execute_plan(plan: dict, kdf_limit: int = 300, keep_events: bool = False) ->
             creds = {"username": "ELSEWHERE\\nobody"}
             ap = {"ntlm-unknown-user": "ntlm", "kerberos-not-installed": "kerberos"}[cf]
     rpc_knobs = {"pad_mode": dcc.get("pad_mode", "min16"), "header_sign": dcc.get("header_sign", True)}
+    if dcc.get("after_response"):  # "rst" | "eof": the DC's services abort / close the connection right after every complete Response
+        rpc_knobs["after_response"] = dcc["after_response"]
     dc = refdc.RefDC(world, rks, host=offline.DC, caller_sids=set(plan.get("caller_sids", [])), acceptor_factory=acc_factory,
                      domain=dcc.get("domain", "domain.test"), forest=dcc.get("forest", "domain.test"),
                      skew_ns=dcc.get("skew_ticks", 0) * 100, omit_l2_at_31=dcc.get("omit_l2_at_31", False), rpc_knobs=rpc_knobs,
@@ -297,7 +299,8 @@ def execute_plan(plan: dict, kdf_limit: int = 300, keep_events: bool = False) ->
                 if kind == "load_key" and op.get("fl") != "thread":
                     ot = OpTrace(i, op)
                     ot.invoke_seq = world.seq
-                    offline.load_into(cache, rks[op["rk"]])
+                    which_ = op.get("cache", "shared")  # (a named second cache may hold root keys too)
+                    offline.load_into(cache if which_ == "shared" else named_caches.setdefault(which_, dpapi_ng.KeyCache()), rks[op["rk"]])
                     world.log("op.load_key", op["rk"])
                     ot.return_seq = world.seq
                     ot.outcome = drive.Outcome("ok", None)
